@@ -58,6 +58,9 @@ class CaptureClient:
             _t.sleep(getattr(self, 'slow_s', 0.004))        # a slow backend: the heartbeat is inside emit() while the main thread ends the run
         with self.lock:
             self.events.append((kind, event.run.runId))
+        if getattr(self, 'lose_answer', None) and kind in self.lose_answer:
+            # the backend has the event, the answer is lost on the way back (read timeout): the client raises
+            raise TimeoutError('lineage backend: read timed out')
 
 
 class Boom(Exception):
@@ -117,7 +120,7 @@ def make_filter_class(script, rec, w=None, meta=None):
             if script.get('poke') and getattr(self, 'emitter', None) is not None:
                 # what the telemetry bridge does from its export thread: hand fresh metric facets to the lineage emitter.
                 # It only stores them for the next heartbeat; it is not an event of its own (Lineage.v has no such step)
-                self.emitter.update_heartbeat_lineage(facets={'frames_processed': k})
+                self.emitter.update_heartbeat_lineage(facets={'frames_processed': k, 'frames.total': k, 'schemaURL': 'x', 'type': k})
             if w is not None and script.get('steps'):
                 w.now += int(script['steps'][k] * 1e9) if k < len(script['steps']) else 0
                 meta.setdefault('clock', []).append(w.now)
@@ -146,7 +149,7 @@ def make_filter_class(script, rec, w=None, meta=None):
     return Scripted
 
 
-def run_script(script, with_lineage=True, beats=0, race=False, slow=False, late=False, reuse=None, in_handler=False):
+def run_script(script, with_lineage=True, beats=0, race=False, slow=False, late=False, reuse=None, in_handler=False, lose_answer=None):
     """-> dict(trace, result, stop_set, open_sockets, announced, events)
     late: the heartbeat thread is slow to get going (a loaded machine) - nothing of the run's history may depend on it;
     reuse: (emitter, client) of an earlier run of this process - Filter.emitter is one object per process, a second
@@ -186,6 +189,7 @@ def run_script(script, with_lineage=True, beats=0, race=False, slow=False, late=
             # slow=True: a backend that takes longer than one heartbeat interval to accept an event (the terminal event waits for it)
             emitter = reuse[0] if reuse else OpenFilterLineage(client=cap, interval=0.02 if slow else 3600)
             cap.slow_s = 0.08 if slow else 0.004
+            cap.lose_answer = lose_answer
             if late:
                 import time as _rt
                 loop0 = emitter._heartbeat_loop
@@ -264,7 +268,7 @@ def run_script(script, with_lineage=True, beats=0, race=False, slow=False, late=
             emitter._thread.join(2)
         if emitter is not None and script.get('poke'):
             # the exporter's final flush at process exit comes after the run has reported its terminal event
-            emitter.update_heartbeat_lineage(facets={'frames_processed': 99})
+            emitter.update_heartbeat_lineage(facets={'frames_processed': 99, 'frames.processed': 3, 'type': 1, 'class': 2})
             emitter.update_heartbeat_lineage()
     finally:
         of_mq.MQ.destroy = saved_destroy
